@@ -13,6 +13,8 @@
 name: mbuff.append.nonempty
 define: VERIF_MB_GHOSTCOPY, U_APPEND, U_NONEMPTY
 src: mbuff.c
+native: mbuff
+native_includes: mbuff.c
 enforce: spif_mbuff_append
 backend: sat
 objbits: 6
@@ -23,6 +25,8 @@ timeout: 150
 name: mbuff.append.empty
 define: VERIF_MB_GHOSTCOPY, U_APPEND, U_EMPTY
 src: mbuff.c
+native: mbuff
+native_includes: mbuff.c
 enforce: spif_mbuff_append
 backend: sat
 objbits: 6
@@ -33,6 +37,8 @@ timeout: 150
 name: mbuff.append_from_ptr.nonempty
 define: VERIF_MB_GHOSTCOPY, U_APPEND_PTR, U_NONEMPTY
 src: mbuff.c
+native: mbuff
+native_includes: mbuff.c
 enforce: spif_mbuff_append_from_ptr
 backend: sat
 objbits: 6
@@ -43,6 +49,8 @@ timeout: 150
 name: mbuff.append_from_ptr.empty
 define: VERIF_MB_GHOSTCOPY, U_APPEND_PTR, U_EMPTY
 src: mbuff.c
+native: mbuff
+native_includes: mbuff.c
 enforce: spif_mbuff_append_from_ptr
 backend: sat
 objbits: 6
@@ -53,6 +61,8 @@ timeout: 150
 name: mbuff.prepend.nonempty
 define: VERIF_MB_GHOSTCOPY, U_PREPEND, U_NONEMPTY
 src: mbuff.c
+native: mbuff
+native_includes: mbuff.c
 enforce: spif_mbuff_prepend
 backend: sat
 objbits: 6
@@ -63,6 +73,8 @@ timeout: 150
 name: mbuff.prepend.empty
 define: VERIF_MB_GHOSTCOPY, U_PREPEND, U_EMPTY
 src: mbuff.c
+native: mbuff
+native_includes: mbuff.c
 enforce: spif_mbuff_prepend
 backend: sat
 objbits: 6
@@ -73,6 +85,8 @@ timeout: 150
 name: mbuff.prepend_from_ptr.nonempty
 define: VERIF_MB_GHOSTCOPY, U_PREPEND_PTR, U_NONEMPTY
 src: mbuff.c
+native: mbuff
+native_includes: mbuff.c
 enforce: spif_mbuff_prepend_from_ptr
 backend: sat
 objbits: 6
@@ -83,6 +97,8 @@ timeout: 150
 name: mbuff.prepend_from_ptr.empty
 define: VERIF_MB_GHOSTCOPY, U_PREPEND_PTR, U_EMPTY
 src: mbuff.c
+native: mbuff
+native_includes: mbuff.c
 enforce: spif_mbuff_prepend_from_ptr
 backend: sat
 objbits: 6
@@ -114,6 +130,7 @@ timeout: 150
 spif_bool_t FN(spif_mbuff_t self, spif_mbuff_t other)
 __CPROVER_requires(SELF_PRE(self) && MBUFF_INV(other))
 __CPROVER_requires(self->size + other->size <= VCAP)
+__CPROVER_requires(MB_WIT_SELF(self) && MB_WIT_OTHER(other))
 __CPROVER_assigns(MBUFF_FRAME(self))
 __CPROVER_frees(self->buff)
 __CPROVER_ensures(__CPROVER_return_value == TRUE)
@@ -148,6 +165,7 @@ spif_bool_t FN(spif_mbuff_t self, spif_byteptr_t other, spif_memidx_t len)
 __CPROVER_requires(SELF_PRE(self))
 __CPROVER_requires(0 <= len && len <= VCAP && __CPROVER_is_fresh(other, (size_t) len))
 __CPROVER_requires(self->size + len <= VCAP)
+__CPROVER_requires(MB_WIT_SELF(self))
 __CPROVER_assigns(MBUFF_FRAME(self))
 __CPROVER_frees(self->buff)
 __CPROVER_ensures(__CPROVER_return_value == TRUE)
@@ -167,7 +185,7 @@ __CPROVER_ensures(!(vg_k >= (size_t) len && vg_k < (size_t) self->len) || vg_k2 
 void harness(void)
 {
     spif_mbuff_t self; spif_byteptr_t other; spif_memidx_t len;
-    w_len = len;
+    w_n = len;
     FN(self, other, len);
     VERIF_CANARY();
 }
